@@ -5,5 +5,5 @@ CONSTANTS N = 3
  K = 0
  Wrap = FALSE
 SPECIFICATION TSpec
-INVARIANTS DriverClaimSat ObservedOutcome
+INVARIANTS ObservedOutcome
 CHECK_DEADLOCK FALSE
